@@ -117,16 +117,16 @@ Definition side_ok (c : side * ucall) : Prop :=
 Theorem udp_step_cases o arx atx :
   udp_step o arx atx =
     match o with
-    | ORead n => ([(Rx, CRead n)], mkRes (an arx) (adata arx) (aerr arx))
-    | OWrite bs => ([(Tx, CWrite bs)], mkRes (an atx) [] (aerr atx))
-    | OSetDeadline t =>
+    | OpRead n => ([(Rx, CRead n)], mkRes (an arx) (adata arx) (aerr arx))
+    | OpWrite bs => ([(Tx, CWrite bs)], mkRes (an atx) [] (aerr atx))
+    | OpSetDeadline t =>
         match aerr arx with
         | GNil => ([(Rx, CSetReadDeadline t); (Tx, CSetWriteDeadline t)], mkRes 0 [] (aerr atx))
         | e => ([(Rx, CSetReadDeadline t)], mkRes 0 [] e)
         end
-    | OSetReadDeadline t => ([(Rx, CSetReadDeadline t)], mkRes 0 [] (aerr arx))
-    | OSetWriteDeadline t => ([(Tx, CSetWriteDeadline t)], mkRes 0 [] (aerr atx))
-    | OClose =>
+    | OpSetReadDeadline t => ([(Rx, CSetReadDeadline t)], mkRes 0 [] (aerr arx))
+    | OpSetWriteDeadline t => ([(Tx, CSetWriteDeadline t)], mkRes 0 [] (aerr atx))
+    | OpClose =>
         ([(Tx, CClose); (Rx, CClose)],
          mkRes 0 [] (match aerr atx with GNil => aerr arx | e => e end))
     end.
@@ -139,33 +139,33 @@ Proof.
 Qed.
 
 (** Close reaches a packet conn only through Close, and then both of them *)
-Theorem udp_close_only_by_close o arx atx s : In (s, CClose) (fst (udp_step o arx atx)) -> o = OClose.
+Theorem udp_close_only_by_close o arx atx s : In (s, CClose) (fst (udp_step o arx atx)) -> o = OpClose.
 Proof.
   destruct o; cbn; try (intros [H | []]; discriminate); try reflexivity.
   destruct (is_nil_err (aerr arx)); cbn; intros H; repeat (destruct H as [H | H]; try discriminate); destruct H.
 Qed.
 
 Theorem udp_close_both arx atx :
-  fst (udp_step OClose arx atx) = [(Tx, CClose); (Rx, CClose)] /\
-  (rerr (snd (udp_step OClose arx atx)) = GNil <-> aerr atx = GNil /\ aerr arx = GNil) /\
-  (aerr atx <> GNil -> rerr (snd (udp_step OClose arx atx)) = aerr atx) /\
-  (aerr atx = GNil -> rerr (snd (udp_step OClose arx atx)) = aerr arx).
+  fst (udp_step OpClose arx atx) = [(Tx, CClose); (Rx, CClose)] /\
+  (rerr (snd (udp_step OpClose arx atx)) = GNil <-> aerr atx = GNil /\ aerr arx = GNil) /\
+  (aerr atx <> GNil -> rerr (snd (udp_step OpClose arx atx)) = aerr atx) /\
+  (aerr atx = GNil -> rerr (snd (udp_step OpClose arx atx)) = aerr arx).
 Proof.
   cbn. split; [reflexivity |]. destruct (aerr atx); cbn; intuition congruence.
 Qed.
 
 Theorem udp_set_deadline t arx atx :
   (aerr arx = GNil ->
-     udp_step (OSetDeadline t) arx atx =
+     udp_step (OpSetDeadline t) arx atx =
        ([(Rx, CSetReadDeadline t); (Tx, CSetWriteDeadline t)], mkRes 0 [] (aerr atx))) /\
   (aerr arx <> GNil ->
-     udp_step (OSetDeadline t) arx atx = ([(Rx, CSetReadDeadline t)], mkRes 0 [] (aerr arx))).
+     udp_step (OpSetDeadline t) arx atx = ([(Rx, CSetReadDeadline t)], mkRes 0 [] (aerr arx))).
 Proof. cbn. destruct (aerr arx); cbn; split; congruence. Qed.
 
 (** reads and writes pass through unchanged; the other side is not touched *)
 Theorem udp_read_write_pass n bs arx atx :
-  udp_step (ORead n) arx atx = ([(Rx, CRead n)], mkRes (an arx) (adata arx) (aerr arx)) /\
-  udp_step (OWrite bs) arx atx = ([(Tx, CWrite bs)], mkRes (an atx) [] (aerr atx)).
+  udp_step (OpRead n) arx atx = ([(Rx, CRead n)], mkRes (an arx) (adata arx) (aerr arx)) /\
+  udp_step (OpWrite bs) arx atx = ([(Tx, CWrite bs)], mkRes (an atx) [] (aerr atx)).
 Proof. split; reflexivity. Qed.
 
 Lemma udp_calls_at_most_once o arx atx s : (length (calls_on s (fst (udp_step o arx atx))) <= 1)%nat.
@@ -275,15 +275,15 @@ Section Bridge.
   (** what the Transmitter's connection answers when it is a fileConn whose file answers
       [adl] to SetWriteDeadline and [awr] to Write *)
   Definition answers_via_fileconn (net t : Z) (data : list Z) (adl awr : answer) : conn_answers :=
-    mkAnswers (err_opt (rerr (snd (fileconn_step net (OSetWriteDeadline t) adl))))
-              (err_opt (rerr (snd (fileconn_step net (OWrite data) awr))))
-              (rn (snd (fileconn_step net (OWrite data) awr))).
+    mkAnswers (err_opt (rerr (snd (fileconn_step net (OpSetWriteDeadline t) adl))))
+              (err_opt (rerr (snd (fileconn_step net (OpWrite data) awr))))
+              (rn (snd (fileconn_step net (OpWrite data) awr))).
 
   (** the calls the file sees for the Transmitter's calls on the fileConn *)
   Definition file_calls (net t : Z) (evs : list tx_event) : list ucall :=
     flat_map (fun ev => match ev with
-                        | TxSetDeadline => fst (fileconn_step net (OSetWriteDeadline t) ans_ok)
-                        | TxWrite bs => fst (fileconn_step net (OWrite bs) ans_ok)
+                        | TxSetDeadline => fst (fileconn_step net (OpSetWriteDeadline t) ans_ok)
+                        | TxWrite bs => fst (fileconn_step net (OpWrite bs) ans_ok)
                         | TxIntercept _ => []
                         end) evs.
 
